@@ -398,12 +398,15 @@ def _beliefs(R, f_escape: Escape):
         ok = kinds <= {'int', 'str', 'NoneType'}
         if not ok:
             return (False, f'process_term_match assigns {sorted(kinds)} to the index')
-        if site.func.endswith('resolve_by_type_pair'):
+        if site.func.endswith('resolve_by_type_pair') or '.Symbol.combine' in site.func:
             # mixed None / non-None pairs arise only when a FUNCTION/KEYWORD symbol meets a variable-like one:
             # the SymbolError guard must come before the lag/lead resolution
             c = Fn(R, f'{P}.Symbol.combine', inline_methods=True)
             outer = [t for t in c.tests() if text(t.ast) in ('self.type != other.type', 'other.type != self.type')]
             calls = c.nodes_with(lambda x: is_call(x, 'resolve_by_type_pair'))
+            if not calls:
+                # the resolution helper was read in place: its defensive raise marks where the resolution happens
+                calls = [r_ for r_ in c.raises('TypeError')]
             raises = c.raises('SymbolError')
             good = bool(outer) and bool(calls) and bool(raises) and all(outer[0].id in c.dom[n.id] for n in calls) \
                 and all(not c.cfg.reaches(n.id, r.id) for n in calls for r in raises)
@@ -602,7 +605,8 @@ def _beliefs(R, f_escape: Escape):
          'exactly one named `_` group matched', fact_single_group),
         (lambda s: s.kind == 'assert' and 'symbol == functions[name]' in s.key, 'function symbols of one name are equal', fact_functions_equal),
         (lambda s: s.kind == 'assert' and 'self.name == other.name' in s.key, 'combine() is called on same-name symbols only', fact_same_name),
-        (lambda s: s.exc == 'TypeError' and s.kind == 'raise' and s.func.split('.')[-1] in ('__str__', 'resolve_by_type_pair'), 'defensive TypeError: index is int|str|None by construction', fact_typeerror_unreachable),
+        (lambda s: s.exc == 'TypeError' and s.kind == 'raise' and (s.func.split('.')[-1] in ('__str__', 'resolve_by_type_pair') or '.Symbol.combine' in s.func or s.func.endswith('.Term.code')),
+         'defensive TypeError: index is int|str|None by construction', fact_typeerror_unreachable),
         (lambda s: s.kind == 'unpack of split()', 'the statement contains `=`', fact_equals_present),
         (lambda s: s.kind == 'Enum[name]', 'regex group names are Type members', fact_type_names),
         (lambda s: s.kind == '.index()', "the searched string contains ':'", fact_index_colon),
